@@ -55,6 +55,16 @@ fn build(seed: u64, shard: u64) -> W44 {
         token::fund_ata(&mut w.svm, &u, &usdc_m, 1_000_000_000 * 1_000_000);
         token::fund_ata(&mut w.svm, &u, &wbtc_m, 100_000 * 100_000_000);
     }
+    for m in 0..5 {
+        for (k, v) in [
+            ("max_pool_amount_for_long_token", 1_000_000_000_000_000_000u128),
+            ("max_pool_amount_for_short_token", 1_000_000_000_000_000_000u128),
+            ("max_pool_value_for_deposit_for_long_token", 1_000_000_000 * UNIT),
+            ("max_pool_value_for_deposit_for_short_token", 1_000_000_000 * UNIT),
+        ] {
+            w.set_market_config(m, k, v).expect("config");
+        }
+    }
     // fees / impact flavours
     for m in 0..4 {
         if rng.bool() {
